@@ -312,3 +312,178 @@ example :
       [some 1, some 1, some 4, none, some 5] = (3, [0, 0, 1], [some 1, some 4]) := by decide
 
 end GV.C02
+
+/-! ## several keys: `factorize_2d` end to end -/
+
+namespace GV.C02.F2
+open GV GV.C02
+
+variable {κ : Type} [DecidableEq κ]
+
+def labelsOf (col : List (Option κ)) : List κ := dedup (col.filterMap id)
+
+def rowOf {α : Type} (cols : List (List α)) (i : Nat) : List α := cols.filterMap (·[i]?)
+
+/-- the key of row `i` in one column (null when out of range) -/
+def keyAt (col : List (Option κ)) (i : Nat) : Option κ := col[i]?.join
+
+def codeRow (keyCols : List (List (Option κ))) (i : Nat) : List Int :=
+  keyCols.map fun col => codeOf (labelsOf col) (keyAt col i)
+
+def shapeOf (keyCols : List (List (Option κ))) : List Nat := keyCols.map fun col => (labelsOf col).length
+
+theorem transpose_get {α : Type} (cols : List (List α)) (n i : Nat) (hi : i < n) :
+    (transposeCols cols n)[i]? = some (rowOf cols i) := by
+  simp [transposeCols, rowOf, List.getElem?_map, List.getElem?_range hi]
+
+theorem rowOf_codes (keyCols : List (List (Option κ))) (n i : Nat) (hlen : ∀ c ∈ keyCols, c.length = n) (hi : i < n) :
+    rowOf (keyCols.map fun col => (factorizeFirst col).1) i = codeRow keyCols i := by
+  induction keyCols with
+  | nil => rfl
+  | cons col cols ih =>
+    have hl : col.length = n := hlen col (List.mem_cons_self ..)
+    have hic : i < col.length := by omega
+    have ih' := ih (fun c hc => hlen c (List.mem_cons_of_mem _ hc))
+    unfold rowOf codeRow at ih' ⊢
+    simp only [List.map_cons, List.filterMap_cons]
+    have h1 : (factorizeFirst col).1[i]? = some (codeOf (labelsOf col) (keyAt col i)) := by
+      simp [factorizeFirst, labelsOf, keyAt, List.getElem?_map, List.getElem?_eq_getElem hic]
+    rw [h1]
+    simp only [ih']
+
+theorem keyAt_mem (col : List (Option κ)) (i : Nat) (x : κ) (h : keyAt col i = some x) : x ∈ labelsOf col := by
+  unfold keyAt at h
+  cases hc : col[i]? with
+  | none => simp [hc] at h
+  | some v =>
+    simp [hc] at h
+    subst h
+    unfold labelsOf
+    rw [mem_dedup, List.mem_filterMap]
+    exact ⟨some x, List.mem_of_getElem? hc, rfl⟩
+
+theorem codeOf_inj (labels : List κ) (a b : Option κ) (ha : ∀ x, a = some x → x ∈ labels) (hb : ∀ x, b = some x → x ∈ labels) :
+    codeOf labels a = codeOf labels b ↔ a = b := by
+  cases a with
+  | none => cases b with
+    | none => simp
+    | some y => simp [codeOf]
+  | some x => cases b with
+    | none => simp [codeOf]
+    | some y =>
+      simp only [codeOf, Option.some.injEq]
+      constructor
+      · intro h
+        have : labels.idxOf x = labels.idxOf y := by exact_mod_cast h
+        exact idxOf_inj (ha x rfl) (hb y rfl) this
+      · intro h; subst h; rfl
+
+theorem codeRow_bounded (keyCols : List (List (Option κ))) (i : Nat) (hnn : ∀ col ∈ keyCols, keyAt col i ≠ none) :
+    Bounded (codeRow keyCols i) (shapeOf keyCols) := by
+  induction keyCols with
+  | nil => simp [codeRow, shapeOf, Bounded]
+  | cons col cols ih =>
+    simp only [codeRow, shapeOf, List.map_cons, Bounded]
+    refine ⟨?_, ih (fun c hc => hnn c (List.mem_cons_of_mem _ hc))⟩
+    cases hk : keyAt col i with
+    | none => exact absurd hk (hnn col (List.mem_cons_self ..))
+    | some x =>
+      simp only [codeOf]
+      have := List.idxOf_lt_length_of_mem (keyAt_mem col i x hk)
+      exact_mod_cast this
+
+theorem codeRow_none_iff (keyCols : List (List (Option κ))) (i : Nat) :
+    weightCodeSum (codeRow keyCols i) (shapeOf keyCols) = none ↔ ∃ col ∈ keyCols, keyAt col i = none := by
+  rw [weightCodeSum_none_iff _ _ (by simp [codeRow, shapeOf])]
+  simp only [codeRow, List.mem_map]
+  constructor
+  · rintro ⟨c, ⟨col, hcol, rfl⟩, hneg⟩
+    exact ⟨col, hcol, (codeOf_neg_iff _ _).mp hneg⟩
+  · rintro ⟨col, hcol, hk⟩
+    exact ⟨_, ⟨col, hcol, rfl⟩, (codeOf_neg_iff _ _).mpr hk⟩
+
+theorem codeRow_eq_iff (keyCols : List (List (Option κ))) (i j : Nat) :
+    codeRow keyCols i = codeRow keyCols j ↔ ∀ col ∈ keyCols, keyAt col i = keyAt col j := by
+  unfold codeRow
+  rw [List.map_inj_left]
+  constructor
+  · intro h col hcol
+    exact (codeOf_inj (labelsOf col) _ _ (keyAt_mem col i) (keyAt_mem col j)).mp (h col hcol)
+  · intro h col hcol
+    rw [h col hcol]
+
+end GV.C02.F2
+
+namespace GV.C02
+open GV GV.C02.F2
+
+variable {κ : Type} [DecidableEq κ]
+
+/-- **`factorize_2d`, end to end**: two rows get the same combined code exactly when both have a null in some key, or
+neither has and they agree in every key column -/
+theorem factorize2d_codes_eq_iff (keyCols : List (List (Option κ))) (n : Nat) (hlen : ∀ c ∈ keyCols, c.length = n)
+    (i j : Nat) (hi : i < n) (hj : j < n) :
+    (factorize2d keyCols n).1[i]? = (factorize2d keyCols n).1[j]? ↔
+      ((∃ col ∈ keyCols, keyAt col i = none) ∧ (∃ col ∈ keyCols, keyAt col j = none)) ∨
+      ((¬ ∃ col ∈ keyCols, keyAt col i = none) ∧ (¬ ∃ col ∈ keyCols, keyAt col j = none) ∧ ∀ col ∈ keyCols, keyAt col i = keyAt col j) := by
+  -- the combined keys
+  have hcomb : ∀ t, t < n →
+      ((transposeCols ((keyCols.map factorizeFirst).map (·.1)) n).map (weightCodeSum · ((keyCols.map factorizeFirst).map (·.2.length))))[t]?
+        = some (weightCodeSum (codeRow keyCols t) (shapeOf keyCols)) := by
+    intro t ht
+    rw [List.getElem?_map, transpose_get _ n t ht]
+    simp only [Option.map_some, List.map_map]
+    have h1 : (keyCols.map ((fun x => x.1) ∘ factorizeFirst)) = keyCols.map (fun col => (factorizeFirst col).1) := rfl
+    have h2 : (keyCols.map ((fun x => x.2.length) ∘ factorizeFirst)) = shapeOf keyCols := rfl
+    rw [h1, h2, rowOf_codes keyCols n t hlen ht]
+  generalize hck : (transposeCols ((keyCols.map factorizeFirst).map (·.1)) n).map (weightCodeSum · ((keyCols.map factorizeFirst).map (·.2.length))) = ck at hcomb
+  have hcklen : ck.length = n := by rw [← hck]; simp [transposeCols]
+  have hcodes : (factorize2d keyCols n).1 = (factorizeFirst ck).1 := by
+    unfold factorize2d
+    simp only [hck]
+  rw [hcodes]
+  have hi' : i < ck.length := by omega
+  have hj' : j < ck.length := by omega
+  have hci := hcomb i hi
+  have hcj := hcomb j hj
+  rw [List.getElem?_eq_getElem hi'] at hci
+  rw [List.getElem?_eq_getElem hj'] at hcj
+  have hci' : ck[i] = weightCodeSum (codeRow keyCols i) (shapeOf keyCols) := Option.some.inj hci
+  have hcj' : ck[j] = weightCodeSum (codeRow keyCols j) (shapeOf keyCols) := Option.some.inj hcj
+  have hli : i < (factorizeFirst ck).1.length := by rw [codes_length]; exact hi'
+  have hlj : j < (factorizeFirst ck).1.length := by rw [codes_length]; exact hj'
+  rw [List.getElem?_eq_getElem hli, List.getElem?_eq_getElem hlj, Option.some.injEq,
+    codes_eq_iff_keys_eq ck i j hi' hj', hci', hcj']
+  -- now pure arithmetic on the mixed radix
+  by_cases hni : ∃ col ∈ keyCols, keyAt col i = none
+  · have h1 := (codeRow_none_iff keyCols i).mpr hni
+    rw [h1]
+    constructor
+    · intro h
+      exact Or.inl ⟨hni, (codeRow_none_iff keyCols j).mp h.symm⟩
+    · rintro (⟨_, hnj⟩ | ⟨hc, _⟩)
+      · exact ((codeRow_none_iff keyCols j).mpr hnj).symm
+      · exact absurd hni hc
+  · by_cases hnj : ∃ col ∈ keyCols, keyAt col j = none
+    · have h2 := (codeRow_none_iff keyCols j).mpr hnj
+      rw [h2]
+      constructor
+      · intro h; exact absurd ((codeRow_none_iff keyCols i).mp h) hni
+      · rintro (⟨h, _⟩ | ⟨_, hc, _⟩)
+        · exact absurd h hni
+        · exact absurd hnj hc
+    · have hbi := codeRow_bounded keyCols i (fun col hcol hk => hni ⟨col, hcol, hk⟩)
+      have hbj := codeRow_bounded keyCols j (fun col hcol hk => hnj ⟨col, hcol, hk⟩)
+      cases hvi : weightCodeSum (codeRow keyCols i) (shapeOf keyCols) with
+      | none => exact absurd ((codeRow_none_iff keyCols i).mp hvi) hni
+      | some vi =>
+        constructor
+        · intro h
+          have := weightCodeSum_injective _ _ _ vi hbi hbj hvi h.symm
+          exact Or.inr ⟨hni, hnj, (codeRow_eq_iff keyCols i j).mp this⟩
+        · rintro (⟨h, _⟩ | ⟨_, _, hall⟩)
+          · exact absurd h hni
+          · rw [← hvi, (codeRow_eq_iff keyCols i j).mpr hall]
+
+
+end GV.C02
